@@ -1,8 +1,9 @@
 """C05 — xheap.Heap and PriorityQueue always hand out a minimum; key map stays exact."""
 import vlib
+from scale_common import ScaleSpec
 from heap_common import HeapSpec, PQSpec
 
-SPECS = {"heap": (HeapSpec(iterators=False), "harness", "runner"), "pq": (PQSpec(iterators=False), "harness", "runner")}
+SPECS = {"scale": (ScaleSpec(['heap']), "harness", "runner"), "heap": (HeapSpec(iterators=False), "harness", "runner"), "pq": (PQSpec(iterators=False), "harness", "runner")}
 
 PROP_FILES = ["C05"]
 
@@ -15,6 +16,9 @@ def run(ctx):
         return ctx.finish()
     vlib.seq_differential(ctx, HeapSpec(iterators=False), exe, proofs_ok, tag="heap")
     vlib.seq_differential(ctx, PQSpec(iterators=False), exe, proofs_ok, tag="pq")
+    okS, outS, exeS = vlib.build_runner()
+    if okS:
+        vlib.seq_differential(ctx, ScaleSpec(['heap']), exeS, proofs_ok, tag="scale")
     vlib.merge_parts(ctx, "cases = (ordering mode in {less natural, less reversed, less coarse(ties), cmp natural, cmp coarse}, initial slice incl. duplicate keys, "
                      "op sequence over few distinct priorities); distinct = hash of ops; non-trivial = >= 4 ops and a Pop/Peek value observed")
     vlib.handle_broken_proof(ctx)
